@@ -124,6 +124,20 @@ static size_t wire_fault(uint8_t *p, size_t len, const fault_t *f) {
 static const char *fk(const fault_t *f) { return f ? f->kind : "none"; }
 
 /* Integers travel as big-endian byte strings (minimal length, or fixed width w if w > 0). */
+/* input bytes of verifiers and decryptors are handed over in a heap block of exactly their length (eight blocks in
+ * rotation): a read beyond - or before - the stated length is a read outside the block */
+static uint8_t *ex_pool[8];
+static int ex_next = 0;
+static const uint8_t *ex_copy(const uint8_t *p, size_t n) {
+	free(ex_pool[ex_next]);
+	uint8_t *b = (uint8_t *)malloc(n ? n : 1);
+	if (n) memcpy(b, p, n);
+	ex_pool[ex_next] = b;
+	ex_next = (ex_next + 1) % 8;
+	return n ? b : b + 1;
+}
+#define EX(P, N) ex_copy((P), (N))
+
 static int xmit_bn(sess_t *s, const char *field, bn_t dst, const bn_t src, size_t w) {
 	fault_t *f = find_fault(s, field);
 	bn_t t;
@@ -653,9 +667,9 @@ static int sch_ecdsa(sess_t *s) {
 		}
 		case 3:
 			if (s->flag[0]) {
-				log_ver(s, "ver", cp_ecdsa_ver(s->b[12], s->b[13], s->buf[0], s->blen[0], (int)s->opt[0], s->e[5]) == 1);
+				log_ver(s, "ver", cp_ecdsa_ver(s->b[12], s->b[13], EX(s->buf[0], s->blen[0]), s->blen[0], (int)s->opt[0], s->e[5]) == 1);
 				/* duplicate delivery: verification is idempotent */
-				if (s->opt[2]) log_ver(s, "ver-dup", cp_ecdsa_ver(s->b[12], s->b[13], s->buf[0], s->blen[0], (int)s->opt[0], s->e[5]) == 1);
+				if (s->opt[2]) log_ver(s, "ver-dup", cp_ecdsa_ver(s->b[12], s->b[13], EX(s->buf[0], s->blen[0]), s->blen[0], (int)s->opt[0], s->e[5]) == 1);
 			} else {
 				tr_printf("VER %d ver decode-failed\n", s->sid);
 			}
@@ -710,7 +724,7 @@ static int sch_ecss(sess_t *s) {
 			return 1;
 		}
 		case 3:
-			if (s->flag[0]) log_ver(s, "ver", cp_ecss_ver(s->b[12], s->b[13], s->buf[0], s->blen[0], s->e[5]) == 1);
+			if (s->flag[0]) log_ver(s, "ver", cp_ecss_ver(s->b[12], s->b[13], EX(s->buf[0], s->blen[0]), s->blen[0], s->e[5]) == 1);
 			else tr_printf("VER %d ver decode-failed\n", s->sid);
 			return 0;
 	}
@@ -803,7 +817,7 @@ static int sch_rsasig(sess_t *s) {
 		}
 		case 2:
 			if (s->flag[0]) {
-				log_ver(s, "ver", cp_rsa_ver(s->buf[1], s->blen[1], s->buf[2], s->blen[2], (int)s->opt[0], rsa_pub) == 1);
+				log_ver(s, "ver", cp_rsa_ver(EX(s->buf[1], s->blen[1]), s->blen[1], EX(s->buf[2], s->blen[2]), s->blen[2], (int)s->opt[0], rsa_pub) == 1);
 				(void)err_get_code();
 			}
 			return 0;
@@ -838,7 +852,7 @@ static int sch_rsaenc(sess_t *s) {
 		case 2:
 			if (s->flag[0]) {
 				s->blen[2] = BUFSZ;
-				int rc = cp_rsa_dec(s->buf[2], &s->blen[2], s->buf[1], s->blen[1], rsa_prv);
+				int rc = cp_rsa_dec(s->buf[2], &s->blen[2], EX(s->buf[1], s->blen[1]), s->blen[1], rsa_prv);
 				log_rc(s, "dec", rc);
 				(void)err_get_code();
 				if (rc == RLC_OK) log_out(s, "pt", s->buf[2], s->blen[2]);
@@ -1074,7 +1088,7 @@ static int sch_bls(sess_t *s) {
 			return 1;
 		}
 		case 3:
-			if (s->flag[0]) log_ver(s, "ver", cp_bls_ver(s->g1[5], s->buf[0], s->blen[0], s->g2[5]) == 1);
+			if (s->flag[0]) log_ver(s, "ver", cp_bls_ver(s->g1[5], EX(s->buf[0], s->blen[0]), s->blen[0], s->g2[5]) == 1);
 			else tr_printf("VER %d ver decode-failed\n", s->sid);
 			return 0;
 	}
